@@ -871,6 +871,17 @@ func (c *FCtx) execLoop(st *State, lp *loopParts) []Flow {
 		switch {
 		case f.kind == fNormal || f.kind == fContinue && (f.label == "" || f.label == lp.label):
 			ps := f.st
+			if len(spec.Asserts) > 0 {
+				aenv := c.invEnv(ps, lp.node)
+				for k, as := range spec.Asserts {
+					if !as.visible(c.prop) {
+						continue
+					}
+					t := aenv.evalBool(as.E)
+					c.oblige(ps, "assert", fmt.Sprintf("%s/assert[%d]", lname, k+1), t, pos)
+					ps.assume(t)
+				}
+			}
 			if lp.post != nil {
 				for _, pf := range c.execStmt(ps, lp.post, nil) {
 					if pf.kind == fNormal {
